@@ -363,6 +363,207 @@ theorem joinOut_normals {out : Str} {K : List Str} (habs : isAbs out = true) (hn
     rw [if_neg (by simpa using hj), joinSlash_append hB hne]
     simp
 
+/-! ## shape and idempotence of `path.Clean`, for every input -/
+/-- shape of the (reversed) stack of kept components: ordinary components on top of a block of `..`,
+and no `..` at all when the path is rooted -/
+def StackInv (rooted : Bool) (st : List Str) : Prop :=
+  ∃ ns n, st = ns ++ List.replicate n dotdot ∧ (∀ c ∈ ns, c ≠ [] ∧ c ≠ dot ∧ c ≠ dotdot) ∧ (rooted = true → n = 0)
+
+theorem cleanStep_inv (rooted : Bool) (st : List Str) (c : Str) (h : StackInv rooted st) : StackInv rooted (cleanStep rooted st c) := by
+  obtain ⟨ns, n, hst, hns, hr⟩ := h
+  unfold cleanStep
+  split
+  · exact ⟨ns, n, hst, hns, hr⟩
+  · rename_i hskip
+    split
+    · -- c = ".."
+      cases ns with
+      | nil =>
+        cases n with
+        | zero =>
+          simp at hst; subst hst
+          cases rooted with
+          | true => exact ⟨[], 0, by simp, by simp, fun _ => rfl⟩
+          | false => exact ⟨[], 1, by simp [List.replicate], by simp, by simp⟩
+        | succ n =>
+          have : st = dotdot :: List.replicate n dotdot := by simpa [List.replicate_succ] using hst
+          subst this
+          simp only [if_true]
+          cases rooted with
+          | true => exact absurd (hr rfl) (by simp)
+          | false =>
+            refine ⟨[], n + 2, ?_, by simp, by simp⟩
+            simp [List.replicate_succ]
+      | cons a ns' =>
+        have : st = a :: (ns' ++ List.replicate n dotdot) := by simpa using hst
+        subst this
+        have ha := hns a (List.mem_cons_self ..)
+        simp only [ha.2.2, if_false]
+        exact ⟨ns', n, rfl, fun c hc => hns c (List.mem_cons_of_mem _ hc), hr⟩
+    · rename_i hdd
+      refine ⟨c :: ns, n, by simp [hst], ?_, hr⟩
+      intro x hx
+      rcases List.mem_cons.mp hx with e | e
+      · subst e
+        exact ⟨fun e => hskip (.inl e), fun e => hskip (.inr e), hdd⟩
+      · exact hns x e
+
+theorem foldl_cleanStep_inv (rooted : Bool) (cs : List Str) (st : List Str) (h : StackInv rooted st) :
+    StackInv rooted (cs.foldl (cleanStep rooted) st) := by
+  induction cs generalizing st with
+  | nil => exact h
+  | cons c cs ih => exact ih _ (cleanStep_inv rooted st c h)
+
+/-- Shape of `path.Clean`'s component list for EVERY input: some `..` in front (none when rooted), then
+only ordinary components — never an empty one, never `.`, never a `..` after an ordinary component. -/
+theorem cleanComps_shape (rooted : Bool) (cs : List Str) :
+    ∃ n ns, cleanComps rooted cs = List.replicate n dotdot ++ ns ∧
+      (∀ c ∈ ns, c ≠ [] ∧ c ≠ dot ∧ c ≠ dotdot) ∧ (rooted = true → n = 0) := by
+  obtain ⟨ns, n, hst, hns, hr⟩ := foldl_cleanStep_inv rooted cs [] ⟨[], 0, rfl, by simp, fun _ => rfl⟩
+  refine ⟨n, ns.reverse, ?_, fun c hc => hns c (List.mem_reverse.mp hc), hr⟩
+  unfold cleanComps
+  rw [hst]
+  simp
+
+
+
+/-- kept components come from the input (or are `..`), so they contain no separator -/
+theorem foldl_cleanStep_noslash (rooted : Bool) (cs : List Str) (st : List Str)
+    (hcs : ∀ c ∈ cs, '/' ∉ c) (hst : ∀ c ∈ st, '/' ∉ c) : ∀ c ∈ cs.foldl (cleanStep rooted) st, '/' ∉ c := by
+  induction cs generalizing st with
+  | nil => exact hst
+  | cons c cs ih =>
+    rw [List.foldl_cons]
+    apply ih _ (fun x hx => hcs x (List.mem_cons_of_mem _ hx))
+    intro x hx
+    have hc := hcs c (List.mem_cons_self ..)
+    have hdd : '/' ∉ dotdot := by decide
+    unfold cleanStep at hx
+    split at hx
+    · exact hst x hx
+    · split at hx
+      · split at hx
+        · split at hx
+          · simp at hx
+          · simp at hx; subst hx; exact hdd
+        · split at hx
+          · split at hx
+            · exact hst x hx
+            · rcases List.mem_cons.mp hx with e | e
+              · subst e; exact hdd
+              · exact hst x e
+          · exact hst x (List.mem_cons_of_mem _ hx)
+      · rcases List.mem_cons.mp hx with e | e
+        · subst e; exact hc
+        · exact hst x e
+
+theorem cleanComps_noslash (rooted : Bool) (s : Str) : ∀ c ∈ cleanComps rooted (splitSlash s), '/' ∉ c := by
+  intro c hc
+  unfold cleanComps at hc
+  exact foldl_cleanStep_noslash rooted _ [] (fun x hx => (mem_splitSlash hx).1) (by simp) c (List.mem_reverse.mp hc)
+
+theorem replicate_append_cons {α : Type} (n : Nat) (a : α) (l : List α) :
+    List.replicate n a ++ a :: l = a :: (List.replicate n a ++ l) := by
+  induction n with
+  | zero => rfl
+  | succ n ih => rw [List.replicate_succ, List.cons_append, ih, List.cons_append]
+
+theorem foldl_cleanStep_dotdots (n : Nat) (st : List Str) (h : ∀ c ∈ st, c = dotdot) :
+    (List.replicate n dotdot).foldl (cleanStep false) st = List.replicate n dotdot ++ st := by
+  induction n generalizing st with
+  | zero => rfl
+  | succ n ih =>
+    rw [List.replicate_succ, List.foldl_cons]
+    have hstep : cleanStep false st dotdot = dotdot :: st := by
+      unfold cleanStep
+      rw [if_neg (by decide), if_pos rfl]
+      cases st with
+      | nil => rfl
+      | cons a t =>
+        have : a = dotdot := h a (List.mem_cons_self ..)
+        subst this
+        simp
+    rw [hstep, ih _ (by intro c hc; rcases List.mem_cons.mp hc with e | e; exact e; exact h c e)]
+    rw [replicate_append_cons, List.cons_append]
+
+/-- the cleaned component list is a fixpoint of the component cleaner -/
+theorem cleanComps_fix {rooted : Bool} {n : Nat} {ns : List Str}
+    (hns : ∀ c ∈ ns, c ≠ [] ∧ c ≠ dot ∧ c ≠ dotdot) (hr : rooted = true → n = 0) :
+    cleanComps rooted (List.replicate n dotdot ++ ns) = List.replicate n dotdot ++ ns := by
+  have hpush : ∀ (st : List Str), ns.foldl (cleanStep rooted) st = ns.reverse ++ st := by
+    intro st
+    rw [foldl_cleanStep_nodotdot rooted ns (fun c hc => (hns c hc).2.2)]
+    congr 2
+    apply List.filter_eq_self.mpr
+    intro c hc
+    simp [keepC, (hns c hc).1, (hns c hc).2.1]
+  unfold cleanComps
+  rw [List.foldl_append]
+  cases rooted with
+  | true =>
+    rw [hr rfl]
+    simp [hpush]
+  | false =>
+    rw [foldl_cleanStep_dotdots n [] (by simp), hpush]
+    simp
+
+theorem pathClean_idempotent (s : Str) : pathClean (pathClean s) = pathClean s := by
+  by_cases hs : s = []
+  · subst hs; decide
+  · by_cases habs : isAbs s = true
+    · -- rooted
+      obtain ⟨n, ns, hL, hns, hr⟩ := cleanComps_shape true (splitSlash s)
+      have hn : n = 0 := hr rfl
+      subst hn
+      simp only [List.replicate_zero, List.nil_append] at hL
+      have hc : pathClean s = '/' :: joinSlash ns := by
+        unfold pathClean; rw [if_neg hs, if_pos habs, hL]
+      rw [hc]
+      have hnoslash : ∀ c ∈ ns, '/' ∉ c := by
+        intro c hc'; exact cleanComps_noslash true s c (hL ▸ hc')
+      unfold pathClean
+      rw [if_neg (by simp), if_pos (by simp [isAbs])]
+      congr 2
+      by_cases hnil : ns = []
+      · subst hnil; decide
+      · rw [splitSlash_cons_slash, splitSlash_joinSlash hnil hnoslash]
+        have := cleanComps_fix (rooted := true) (n := 0) (ns := ns) hns (fun _ => rfl)
+        simp only [List.replicate_zero, List.nil_append] at this
+        unfold cleanComps at this ⊢
+        rw [List.foldl_cons, cleanStep_skip (.inl rfl)]
+        exact this
+    · -- not rooted
+      have habs' : isAbs s = false := by cases h : isAbs s <;> simp_all
+      obtain ⟨n, ns, hL, hns, _⟩ := cleanComps_shape false (splitSlash s)
+      by_cases hnil : cleanComps false (splitSlash s) = []
+      · have hc : pathClean s = dot := by
+          unfold pathClean; rw [if_neg hs, habs', hnil]; simp
+        rw [hc]; decide
+      · have hc : pathClean s = joinSlash (cleanComps false (splitSlash s)) := by
+          unfold pathClean; rw [if_neg hs, habs']; simp [hnil]
+        have hnoslash := cleanComps_noslash false s
+        have hne := cleanComps_nonempty false (splitSlash s)
+        rw [hc]
+        generalize cleanComps false (splitSlash s) = L at hL hnil hnoslash hne
+        have hj : joinSlash L ≠ [] := joinSlash_ne_nil hnil hne
+        have hnabs : isAbs (joinSlash L) = false := by
+          cases L with
+          | nil => exact absurd rfl hnil
+          | cons a t =>
+            have ha := hne a (List.mem_cons_self ..)
+            cases a with
+            | nil => exact absurd rfl ha
+            | cons c r =>
+              obtain ⟨r', hr'⟩ := joinSlash_head (a := c :: r) (t := t) rfl
+              rw [hr', isAbs_cons]
+              have : c ≠ '/' := fun e => hnoslash _ (List.mem_cons_self ..) (e ▸ List.mem_cons_self ..)
+              simp [this]
+        have hfix : cleanComps false L = L := by
+          rw [hL]; exact cleanComps_fix hns (fun h => by cases h)
+        unfold pathClean
+        rw [if_neg hj, hnabs, splitSlash_joinSlash hnil hnoslash]
+        simp [hfix, hnil]
+
 /-! ## extraction loop -/
 
 def keysOf (fs : FS) : List Str := fs.map (·.1)
